@@ -16,7 +16,7 @@ CFG_1D = dict(
     value_only=(),
     views=("all", "s1", "rev", "i0", "na", "r22", "T", "flat", "sw", "dg"),
     ops1=("pos", "mul2", "adv"),
-    set_idx=("all", "s1", "i0", "advr3", "bool"),
+    set_idx=("all", "s1", "i0", "advr3", "bool", "advrT"),
     iops=("iadd", "imul", "ipow2"),
     outs=(("add", None), ("multiply", 0), ("multiply", "F")),
     outs_const=True,
@@ -24,13 +24,14 @@ CFG_1D = dict(
     set_all_tensor=True,
     no_target=("y",),
 )
-CFG_2D = dict(CFG_1D, set_idx=("all", "i0", "c0", "advr", "bool"))
+CFG_2D = dict(CFG_1D, set_idx=("all", "i0", "c0", "advr", "bool"), outs=(("add", None), ("multiply", 0), ("multiply", "F"), ("multiply", "B")))
 
 WORLDS = {
     "x4": ([("x", (4,), 0, False), ("y", (3,), 5, False)], CFG_1D),
     "x23": ([("x", (2, 3), 0, False), ("y", (3,), 7, False)], CFG_2D),
+    "x23F": ([("x", (2, 3), 0, False, "F"), ("y", (3,), 7, False)], CFG_2D),
 }
-BOUNDS = {"quick": [("x4", 3), ("x23", 2)], "thorough": [("x4", 4), ("x23", 3)]}
+BOUNDS = {"quick": [("x4", 3), ("x23", 2), ("x23F", 3)], "thorough": [("x4", 4), ("x23", 3), ("x23F", 3)]}
 
 
 def grad_check(init, h, seed, impl, model_names):
